@@ -12,6 +12,10 @@ CHECKS = {
    technique="SMT equivalence (z3 QF_BV) of amoco-built/simplified expression trees against an SMT-LIB reference for all register values; symbolic execution of constant folding/eval and of constant-keyed rewrite rules with z3-backed ints",
    text="Bounded translation validation of the rewriter: every enumerated tree (depth<=2, reduced depth 3; widths 1..128), at each construction/simplify stage and complexity setting, is proven equal to the fixed-width reference for ALL register valuations (unsat), or a counterexample is replayed concretely through mapper evaluation. Constant folders/eval and constant-keyed rules are executed on symbolic constants (all values at widths 4/8/16). Nothing is claimed beyond the enumerated shapes and widths.",
    note="trusted: z3, the translator vf/termsmt.py (self-checked against amoco's test identities and a python-int reference), the symx proxies; assumptions: divisor != 0, rotation < width, both operands of ordered/wide ops declared with the same signedness"),
+ "C12": dict(level="model_checking", engine="E1+E2", design="DESIGN.md section 4 C12",
+   technique="z3 sort checking of the independent translation of every stage result (width = dictated width, comp parts/smask partition [0,size)); symbolic execution of comp/slc slicing kernels with symbolic bit positions",
+   text="Bounded: for every enumerated tree and every rewrite/eval/slice stage the result has exactly the dictated width and is well-formed; the comp/slc kernels are explored for ALL slice positions 0<=i<j<=16 by forking on z3-backed ints (complete path sets), each path's result checked for exact tiling.",
+   note="trusted: vf/trees.width (dictated width), vf/termsmt.T sort/tiling checks, symx proxies; outside: sizes > 128, comp size > 16 in the kernel"),
 }
 
 NA_REASON = "check not built yet (construction in progress)"
